@@ -12,7 +12,7 @@
 import glob, json, os, re, shutil, subprocess, sys, time
 
 ENV = dict(os.environ, GOFLAGS="-mod=mod", GOPROXY="off", GOSUMDB="off", GOTOOLCHAIN="local")
-ROOT = "/verif"
+ROOT = os.environ.get("SEEDEVAL_ROOT", "/verif")
 
 
 def sh(cmd, cwd=None, timeout=3600):
@@ -55,9 +55,10 @@ def main():
             shutil.copy(d, dst)
             placed.append((dst, sub))
         pk = sorted(set("./" + s if s != "." else "." for _, s in placed)) or ["./..."]
-        code_with, out_with = sh(["go", "test", "-count=1"] + pk, cwd=wt)
+        race = ["-race"] if any("race" in os.path.basename(d) for d in demos) or props[0] == "C16" else []
+        code_with, out_with = sh(["go", "test", "-count=1"] + race + pk, cwd=wt)
         sh(["git", "apply", "-R", patch], cwd=wt)
-        code_without, out_without = sh(["go", "test", "-count=1"] + pk, cwd=wt)
+        code_without, out_without = sh(["go", "test", "-count=1"] + race + pk, cwd=wt)
         meta["confirmed"]["demo_fails_with_patch"] = code_with != 0
         meta["confirmed"]["demo_passes_without_patch"] = code_without == 0
         print("demo with patch: exit", code_with, "| without: exit", code_without)
@@ -90,7 +91,7 @@ def main():
 
 def finish(meta, seed_dir, sid, keep):
     if keep:
-        dst = os.path.join(ROOT, "seeded", sid)
+        dst = os.path.join("/verif", "seeded", sid)
         os.makedirs(dst, exist_ok=True)
         for f in os.listdir(seed_dir):
             if os.path.isfile(os.path.join(seed_dir, f)):
